@@ -209,11 +209,21 @@ theorem runStages_frame (stages : List StageOp) (q : Peer) (r : ReqId) (t : Tabl
 
 /-! ### the peer filter -/
 
-/-- does the peer filter keep response `x` of a message from `q`? -/
+/-- does the peer filter keep response `x` of a message from `q`?  (the comparison is the one
+    extracted from the source: `Generated.ReqPipeline.filterCond`) -/
 def keeps (t : Table) (q : Peer) (x : Resp) : Bool :=
   match t.get x.id with
-  | some e => e.peer == q
+  | some e => filterKeeps Generated.ReqPipeline.filterCond q e
   | none => false
+
+/-- the comparison compares the entry's peer with the sender (in either order) -/
+def GoodFilter (c : FilterCond) : Bool :=
+  (c.lhs == .entryPeer && c.rhs == .sender) || (c.lhs == .sender && c.rhs == .entryPeer)
+
+theorem filterKeeps_good (c : FilterCond) (hc : GoodFilter c = true) (q : Peer) (e : Entry) :
+    filterKeeps c q e = (e.peer == q) := by
+  obtain ⟨l, r⟩ := c
+  cases l <;> cases r <;> simp [GoodFilter] at hc <;> simp [filterKeeps, evalPeer, Bool.beq_comm]
 
 /-- the filter stage reads the table only -/
 theorem runStage_filter (q : Peer) (t : Table) (l : List Resp) :
